@@ -342,6 +342,9 @@ func gatedFields() map[string]map[string]bool {
 	return gatedSet
 }
 
+// trailingExempt: pack types whose format has no end of its own (the rest of the datagram is their payload).
+var trailingExempt = map[string]bool{}
+
 func runCarriage(c CarriageCase) *pbt.Result {
 	d := descByName[c.Type]
 	if d == nil {
@@ -417,6 +420,21 @@ func runCarriage(c CarriageCase) *pbt.Result {
 	if a := in.Available(); a != 0 {
 		return pbt.Fail("%s v%d: Read left Available()=%d after reading the %d bytes the writer produced (bytes %s)",
 			c.Type, c.Ver, a, len(wire), hexShort(wire))
+	}
+	// the same bytes followed by the beginning of another pack (a relay forwards several packs in one buffer): the reader
+	// stops where the writer stopped
+	if !trailingExempt[d.name] {
+		dst2 := d.mk(c.Ver)
+		for name := range d.readerParam {
+			fieldVal(dst2, byName[name]).SetInt(int64(len(wire)))
+		}
+		in2 := wio.NewDataInputX(append(append([]byte(nil), wire...), 0x01, 0x02, 0x03, 0x04, 0x05, 0x06, 0x07))
+		if p := catch(func() { dst2.Read(in2) }); p != nil {
+			return pbt.Fail("%s v%d: Read panics when 7 foreign bytes follow the %d bytes the writer produced: %v", c.Type, c.Ver, len(wire), p)
+		}
+		if a := in2.Available(); a != 7 {
+			return pbt.Fail("%s v%d: the writer produced %d bytes; with 7 foreign bytes after them Read consumed %d bytes (bytes %s)", c.Type, c.Ver, len(wire), len(wire)+7-int(a), hexShort(wire))
+		}
 	}
 
 	// Read+Process on a second pack (ToPack for the registered types)
